@@ -4,6 +4,7 @@ mod c19;
 mod c20;
 mod c04;
 mod c17;
+mod c16;
 mod c10;
 mod tables;
 mod runner;
@@ -52,6 +53,7 @@ fn main() {
         "c20" => c20::run(&args),
         "c04" => c04::run(&args),
         "c17" => c17::run(&args),
+        "c16" => c16::run(&args),
         "c10" => c10::run(&args),
         "run" => {
             // vh run file.bas [stdin-file]: prints the outcome of one program (debugging aid, used by replays)
